@@ -28,7 +28,62 @@ type symEnv struct {
 	locals map[types.Object]string // symbolic locals (Coq terms of type option Z)
 	result string                  // argument of vm.setInt
 	other  string                  // setFloat/setString/… reached instead
+	rets     []string
+	returned bool
 }
+
+// call translates a loop-free function applied to argument expressions
+// (evaluated in s) and returns the terms of its results.
+func (s *symEnv) call(fd *ast.FuncDecl, args []ast.Expr) ([]string, error) {
+	var terms []string
+	for _, a := range args {
+		t, err := s.term(a)
+		if err != nil {
+			return nil, err
+		}
+		terms = append(terms, t)
+	}
+	return translateFunc(s.e.pkg, fd, terms)
+}
+
+// translateFunc translates fd with its integer parameters bound to the given terms.
+func translateFunc(p *packages.Package, fd *ast.FuncDecl, args []string) ([]string, error) {
+	c := &symEnv{e: newEnv(p), locals: map[types.Object]string{}}
+	i := 0
+	for _, f := range fd.Type.Params.List {
+		for _, n := range f.Names {
+			if i >= len(args) {
+				return nil, fmt.Errorf("%s: too few arguments", fd.Name.Name)
+			}
+			c.locals[p.TypesInfo.Defs[n]] = args[i]
+			i++
+		}
+	}
+	var named []types.Object
+	if fd.Type.Results != nil {
+		for _, f := range fd.Type.Results.List {
+			for _, n := range f.Names {
+				o := p.TypesInfo.Defs[n]
+				named = append(named, o)
+				c.locals[o] = "(Some 0%Z)"
+			}
+		}
+	}
+	if _, err := c.run(fd.Body.List); err != nil {
+		return nil, fmt.Errorf("%s: %v", fd.Name.Name, err)
+	}
+	if !c.returned {
+		return nil, fmt.Errorf("%s: no return reached", fd.Name.Name)
+	}
+	if len(c.rets) == 0 && len(named) > 0 {
+		for _, o := range named {
+			c.rets = append(c.rets, c.locals[o])
+		}
+	}
+	return c.rets, nil
+}
+
+
 
 func ityOf(t types.Type) string {
 	b, ok := t.Underlying().(*types.Basic)
@@ -112,7 +167,9 @@ func (s *symEnv) term(x ast.Expr) (string, error) {
 		}
 		if x.Op == token.SHL || x.Op == token.SHR {
 			cty := ityOf(info.TypeOf(x.Y))
-			if cty == "" || cty[0] != 'U' {
+			cv := s.e.eval(x.Y)
+			constCount := cv != nil && cv.Kind() == constant.Int && constant.Sign(cv) >= 0
+			if !constCount && (cty == "" || cty[0] != 'U') {
 				return "", fmt.Errorf("shift count of type %s is not unsigned", info.TypeOf(x.Y))
 			}
 		}
@@ -135,6 +192,18 @@ func (s *symEnv) term(x ast.Expr) (string, error) {
 				if ok && (se.Sel.Name == "int" || se.Sel.Name == "intk") && (reg.Name == "a" || reg.Name == "b" || reg.Name == "c") {
 					return "r" + reg.Name, nil
 				}
+			}
+		}
+		if id, ok := x.Fun.(*ast.Ident); ok {
+			if fd := findFunc(s.e.pkg, id.Name); fd != nil {
+				rs, err := s.call(fd, x.Args)
+				if err != nil {
+					return "", err
+				}
+				if len(rs) != 1 {
+					return "", fmt.Errorf("call %s has %d results", id.Name, len(rs))
+				}
+				return rs[0], nil
 			}
 		}
 		return "", fmt.Errorf("call %s", types.ExprString(x.Fun))
@@ -214,6 +283,53 @@ func (s *symEnv) stmt(st ast.Stmt) (symStop, error) {
 		}
 		return symGo, nil
 	case *ast.AssignStmt:
+		if len(st.Rhs) == 1 && len(st.Lhs) > 1 {
+			ce, ok := st.Rhs[0].(*ast.CallExpr)
+			if !ok {
+				return symGo, fmt.Errorf("tuple assignment")
+			}
+			id, ok := ce.Fun.(*ast.Ident)
+			if !ok {
+				return symGo, fmt.Errorf("tuple assignment from %s", types.ExprString(ce.Fun))
+			}
+			fd := findFunc(s.e.pkg, id.Name)
+			if fd == nil {
+				return symGo, fmt.Errorf("function %s not found", id.Name)
+			}
+			rs, err := s.call(fd, ce.Args)
+			if err != nil {
+				return symGo, err
+			}
+			if len(rs) != len(st.Lhs) {
+				return symGo, fmt.Errorf("tuple assignment arity")
+			}
+			for i, l := range st.Lhs {
+				lid, ok := l.(*ast.Ident)
+				if !ok {
+					return symGo, fmt.Errorf("tuple assignment target")
+				}
+				s.locals[s.e.obj(lid)] = rs[i]
+			}
+			return symGo, nil
+		}
+		if op, ok := map[token.Token]token.Token{token.OR_ASSIGN: token.OR, token.AND_ASSIGN: token.AND, token.ADD_ASSIGN: token.ADD, token.SUB_ASSIGN: token.SUB,
+			token.XOR_ASSIGN: token.XOR, token.SHL_ASSIGN: token.SHL, token.SHR_ASSIGN: token.SHR, token.AND_NOT_ASSIGN: token.AND_NOT, token.MUL_ASSIGN: token.MUL}[st.Tok]; ok && len(st.Lhs) == 1 {
+			l, err := s.term(st.Lhs[0])
+			if err != nil {
+				return symGo, err
+			}
+			r, err := s.term(st.Rhs[0])
+			if err != nil {
+				return symGo, err
+			}
+			ty := ityOf(s.e.pkg.TypesInfo.TypeOf(st.Lhs[0]))
+			id, ok := st.Lhs[0].(*ast.Ident)
+			if !ok || ty == "" {
+				return symGo, fmt.Errorf("op-assignment target")
+			}
+			s.locals[s.e.obj(id)] = fmt.Sprintf("(obin %s %s %s %s)", binNames[op], ty, l, r)
+			return symGo, nil
+		}
 		if len(st.Lhs) != len(st.Rhs) || (st.Tok != token.ASSIGN && st.Tok != token.DEFINE) {
 			return symGo, fmt.Errorf("assignment form %s", st.Tok)
 		}
@@ -310,6 +426,17 @@ func (s *symEnv) stmt(st ast.Stmt) (symStop, error) {
 		if st.Tok == token.BREAK {
 			return symBreak, nil
 		}
+	case *ast.ReturnStmt:
+		s.rets = nil
+		for _, r := range st.Results {
+			t, err := s.term(r)
+			if err != nil {
+				return symGo, err
+			}
+			s.rets = append(s.rets, t)
+		}
+		s.returned = true
+		return symDone, nil
 	}
 	return symGo, fmt.Errorf("statement %T", st)
 }
